@@ -25,14 +25,17 @@ pub struct Rec {
     qual: String,
 }
 
-const IDS: [&str; 5] = ["a", "id1", "@x", ">y", "+"];
-const DESCS: [Option<&str>; 8] = [
+const IDS: [&str; 6] = ["a", "id1", "@x", ">y", "+", "\u{e9}\u{4e2d}"];
+const DESCS: [Option<&str>; 10] = [
     None,
     Some("d"),
     Some("two words"),
     Some(" lead"),
     Some("@ + >"),
     Some("x\ty"),
+    // non-ASCII text incl. multi-byte white space (valid UTF-8, no line breaks)
+    Some("caf\u{e9}\u{a0}\u{2003}x"),
+    Some("\u{3000}wide"),
     // the two below are inside the literal quantifier ("description without line breaks") and
     // are the trailing-blank class of the known finding
     Some(""),
@@ -79,6 +82,8 @@ enum Variant {
     Crlf,
     /// sequence (and quality) lines re-wrapped to this width by the check
     Rewrap(usize),
+    /// re-wrapped, then every LF replaced by CRLF
+    CrlfRewrap(usize),
 }
 
 #[derive(Clone, Copy, Debug, PartialEq, Eq, Serialize, Deserialize)]
@@ -100,6 +105,10 @@ struct Layout {
     cap: usize,
     sched: Schedule,
     api: Api,
+    /// read() calls that fail with ErrorKind::Interrupted (std: "retry"); only used for the
+    /// sniffer-versus-plain-parser clause
+    #[serde(default)]
+    interrupts: Vec<usize>,
 }
 
 fn write_bytes(list: &[Rec], format: Format, wrap: Option<usize>, small_writer_buf: bool) -> Vec<u8> {
@@ -196,14 +205,15 @@ fn apply_variant(bytes: &[u8], format: Format, v: Variant) -> Vec<u8> {
             o
         }
         Variant::Rewrap(w) => rewrap(bytes, format, w),
+        Variant::CrlfRewrap(w) => apply_variant(&rewrap(bytes, format, w), format, Variant::Crlf),
     }
 }
 
 type Parsed = Vec<Result<Rec, String>>;
 
-fn parse(data: &[u8], format: Format, cap: usize, sched: &Schedule, api: Api, limit: usize) -> Result<Parsed, String> {
+fn parse(data: &[u8], format: Format, cap: usize, sched: &Schedule, api: Api, limit: usize, interrupts: &[usize]) -> Result<Parsed, String> {
     guard(|| {
-        let env = Env::new(data, sched.clone());
+        let env = Env::new(data, sched.clone()).with_interrupts(interrupts);
         let br = BufReader::with_capacity(cap, env);
         let mut out: Parsed = vec![];
         match (format, api) {
@@ -334,13 +344,25 @@ fn roundtrip_check(list: &[Rec], lay: &Layout, cc: &mut CaseCtx) {
         _ => true,
     };
     cc.set_nontrivial(splits_line || lay.variant != Variant::AsWritten || lay.api != Api::Records);
-    match parse(&data, lay.format, lay.cap, &lay.sched, lay.api, list.len() + 3) {
+    match parse(&data, lay.format, lay.cap, &lay.sched, lay.api, list.len() + 3, &lay.interrupts) {
         Err(msg) => {
             let key = if msg.contains("no termination") { "no-termination" } else { "panic" };
             cc.violation(format!("C11/{}/roundtrip/{}", f, key), msg);
         }
         Ok(got) => {
             cc.outcome(&got);
+            if !lay.interrupts.is_empty() {
+                // the statement relates the sniffer to the matching parser: under the very same
+                // environment (including reads that ask to be retried) both must yield the same
+                let plain = parse(&data, lay.format, lay.cap, &lay.sched, Api::Records, list.len() + 3, &lay.interrupts);
+                if plain.as_ref().ok() != Some(&got) {
+                    cc.violation(
+                        format!("C11/{}/sniffer/differs-from-plain-parser-under-interrupted-read", f),
+                        format!("EitherRecords: {:?} ; plain reader on the same stream: {:?}", got, plain),
+                    );
+                }
+                return;
+            }
             let want: Parsed = list.iter().map(|r| Ok(expect(r, lay.format))).collect();
             if got == want {
                 return;
@@ -368,6 +390,7 @@ fn roundtrip_check(list: &[Rec], lay: &Layout, cc: &mut CaseCtx) {
                 Variant::AsWritten => "roundtrip",
                 Variant::Crlf => "crlf",
                 Variant::Rewrap(_) => "rewrap",
+                Variant::CrlfRewrap(_) => "crlf-rewrap",
             };
             let api = match lay.api {
                 Api::Records => "records",
@@ -451,7 +474,9 @@ fn cut_check(list: &[Rec], format: Format, wrap: Option<usize>, cut: usize, cc: 
     }
 }
 
-const HOSTILE: [u8; 8] = [b'>', b'@', b'+', b'\n', b'\r', b'A', b' ', 0xFF];
+/// hostile tokens: record markers, line breaks, a letter, a blank, an invalid UTF-8 byte, and two
+/// multi-byte UTF-8 white-space characters (U+00A0, U+2003)
+const HOSTILE: [&[u8]; 10] = [b">", b"@", b"+", b"\n", b"\r", b"A", b" ", &[0xFF], &[0xC2, 0xA0], &[0xE2, 0x80, 0x83]];
 
 fn arbitrary_check(data: &[u8], cc: &mut CaseCtx) {
     let bound = data.len() + 3;
@@ -506,30 +531,37 @@ fn layouts_for(list: &[Rec], tier: Tier, list_idx: usize, full: bool) -> Vec<Lay
     for format in [Format::Fastq, Format::Fasta] {
         let wraps: Vec<Option<usize>> = if format == Format::Fasta { vec![None, Some(1), Some(3), Some(4), Some(100)] } else { vec![None] };
         for wrap in wraps {
-            let variants: Vec<Variant> = if wrap.is_none() { vec![Variant::AsWritten, Variant::Crlf, Variant::Rewrap(3), Variant::Rewrap(1)] } else { vec![Variant::AsWritten, Variant::Crlf] };
+            let variants: Vec<Variant> = if wrap.is_none() { vec![Variant::AsWritten, Variant::Crlf, Variant::Rewrap(3), Variant::Rewrap(1), Variant::CrlfRewrap(3), Variant::CrlfRewrap(2)] } else { vec![Variant::AsWritten, Variant::Crlf] };
             for variant in variants {
                 let len = apply_variant(&write_bytes(list, format, wrap, false), format, variant).len();
                 for cap in caps {
                     for sched in uniform_family() {
-                        v.push(Layout { format, wrap, variant, cap, sched, api: Api::Records });
+                        v.push(Layout { format, wrap, variant, cap, sched, api: Api::Records, interrupts: vec![] });
                     }
                 }
                 for api in [Api::ReadInto, Api::Either] {
                     for sched in [Schedule::Uniform(usize::MAX), Schedule::Uniform(1)] {
-                        v.push(Layout { format, wrap, variant, cap: 8192, sched, api });
+                        v.push(Layout { format, wrap, variant, cap: 8192, sched, api, interrupts: vec![] });
+                    }
+                }
+                if variant == Variant::AsWritten {
+                    for ints in [vec![0usize], vec![1], vec![0, 1], vec![2]] {
+                        for cap in [1usize, 8192] {
+                            v.push(Layout { format, wrap, variant, cap, sched: Schedule::Uniform(3), api: Api::Either, interrupts: ints.clone() });
+                        }
                     }
                 }
                 if full {
                     for sched in one_deviation(len) {
-                        v.push(Layout { format, wrap, variant, cap: 8192, sched: sched.clone(), api: Api::Records });
+                        v.push(Layout { format, wrap, variant, cap: 8192, sched: sched.clone(), api: Api::Records, interrupts: vec![] });
                     }
                     let d2 = match tier {
                         Tier::Quick => list_idx % 8 == 0 && (wrap.is_none() || wrap == Some(3)),
                         Tier::Thorough => true,
                     };
-                    if d2 && variant != Variant::Rewrap(1) {
+                    if d2 && variant != Variant::Rewrap(1) && !matches!(variant, Variant::CrlfRewrap(_)) {
                         for sched in two_deviations(len) {
-                            v.push(Layout { format, wrap, variant, cap: 8192, sched, api: Api::Records });
+                            v.push(Layout { format, wrap, variant, cap: 8192, sched, api: Api::Records, interrupts: vec![] });
                         }
                     }
                 }
@@ -588,7 +620,8 @@ fn arbitrary_unit(tier: Tier, shard: usize, ctx: &mut Ctx) {
             if idx % ARB_SHARDS as u64 != shard as u64 {
                 continue;
             }
-            let data = crate::gen::nth_string(&HOSTILE, len, i);
+            let idxs = crate::gen::nth_string(&[0u8, 1, 2, 3, 4, 5, 6, 7, 8, 9], len, i);
+            let data: Vec<u8> = idxs.iter().flat_map(|&t| HOSTILE[t as usize].iter().copied()).collect();
             ctx.case(|| json!({"kind": "arbitrary", "bytes": show(&data)}), |cc| arbitrary_check(&data, cc));
         }
     }
@@ -602,7 +635,7 @@ impl Prop for C11Prop {
         "fault_enumeration"
     }
     fn rule(&self) -> &'static str {
-        "Record lists (all 1200 single records of a 5x8x6x5 alphabet, strided pairs, selected triples) are written by the real writers and read back under every layout of a grid: FASTA line wrap x {as written, CRLF, re-wrapped} x BufReader capacity {1,2,3,7,8192} x read() answer schedule (uniform <=1,<=2,<=3, cycles, unbounded; for single records every schedule with one short leading answer and every schedule with two) x API (records(), read() into a reused Record, EitherRecords); every truncation offset of the written bytes; every byte string over {> @ + LF CR A space 0xFF} up to the length bound. Each (list, layout) / (list, cut) / byte string is one case. Non-trivial: a read() answer or the buffer capacity splits a line, or the layout is CRLF/re-wrapped, or a non-default API; cuts: the cut falls inside a line; arbitrary: contains a line break and a record marker."
+        "Record lists (all single records of a 6x10x6x5 alphabet (ids and descriptions include non-ASCII text and multi-byte white space), strided pairs, selected triples) are written by the real writers and read back under every layout of a grid: FASTA line wrap x {as written, CRLF, re-wrapped} x BufReader capacity {1,2,3,7,8192} x read() answer schedule (uniform <=1,<=2,<=3, cycles, unbounded; for single records every schedule with one short leading answer and every schedule with two) x API (records(), read() into a reused Record, EitherRecords); the sniffer additionally against the plain parser on streams whose first reads fail with ErrorKind::Interrupted; every truncation offset of the written bytes; every string of up to 5/6 tokens over {> @ + LF CR A space 0xFF U+00A0 U+2003} (the last two as multi-byte UTF-8). Each (list, layout) / (list, cut) / byte string is one case. Non-trivial: a read() answer or the buffer capacity splits a line, or the layout is CRLF/re-wrapped, or a non-default API; cuts: the cut falls inside a line; arbitrary: contains a line break and a record marker."
     }
     fn assumptions(&self) -> Vec<&'static str> {
         vec![
@@ -613,12 +646,12 @@ impl Prop for C11Prop {
     }
     fn bounds(&self, tier: Tier) -> Value {
         json!({
-            "records": 1200, "lists": lists(tier).len(),
-            "fasta_wraps": "None,1,3,4,100", "variants": "as written, CRLF, re-wrap 3, re-wrap 1",
+            "records": record_alphabet().len(), "lists": lists(tier).len(),
+            "fasta_wraps": "None,1,3,4,100", "variants": "as written, CRLF, re-wrap 3, re-wrap 1, CRLF+re-wrap 3, CRLF+re-wrap 2",
             "bufreader_capacities": [1, 2, 3, 7, 8192],
             "schedules": tier.pick("uniform family (6); all 1-deviation schedules for single records; all 2-deviation schedules for every 8th single record", "uniform family (6); all 1- and 2-deviation schedules for single records"),
             "cuts": "every offset of the FASTQ bytes and of the FASTA bytes (wrap None and 3)",
-            "arbitrary_bytes": format!("all strings over 8 symbols, length <= {}", tier.pick(5, 6)),
+            "arbitrary_bytes": format!("all strings of <= {} tokens over 10 hostile tokens", tier.pick(5, 6)),
         })
     }
     fn units(&self, _tier: Tier) -> Vec<String> {
